@@ -84,6 +84,20 @@ static void single_byte(int sh,int n){ int idx=0; for(size_t e=0;e<sizeof(SB_NAM
 		if(!v&&(a%16==0||b%16==0)){ std::string out; cppcms::encoding::validate_or_filter(enc,p,p+2,out,0); std::string want; if(ok1[a]) want+=p[0]; if(ok1[b]) want+=p[1]; if(out!=want) bad("single-byte:filter-pair:"+enc,"filtered pair is not the sub-string of valid bytes",std::string(p,2)); } }
 	vf::guard("code_pages"); } }
 
+// ---- encodings WITHOUT a table entry: validated by converting to UTF-8 first (iconv / ICU) ------------------------------------
+// The HTML-safe rule is the same for them: printable ASCII, tab, LF, CR are valid; every other C0 control and DEL is not, alone or next to
+// valid text; validate_or_filter agrees with valid() and removes / replaces exactly the offending byte.
+static const char *CONV_NAMES[]={"windows-1254","cp1254","Shift_JIS","EUC-JP","GBK","Big5","EUC-KR","GB2312","windows-874","cp932","ISO-2022-JP?","koi8-t"};
+static void converter_backed(int sh,int n){ int idx=0; for(size_t e=0;e<sizeof(CONV_NAMES)/sizeof(*CONV_NAMES);e++){ if((idx++%n)!=sh) continue; std::string enc=CONV_NAMES[e]; { size_t c=0; const char *A="Az 09"; if(!cppcms::encoding::valid(enc,A,A+5,c)){ vf::guard("converter_encodings_unavailable"); continue; } }
+	bool ok1[128]; for(int a=0;a<128;a++){ char c=(char)a; size_t cnt=0; ok1[a]=cppcms::encoding::valid(enc,&c,&c+1,cnt); vf::eval(); bool printable=(a>=0x20&&a<=0x7E)||a==9||a==10||a==13;
+		if(enc.find("JIS")!=std::string::npos||enc.find("932")!=std::string::npos){ if(a==0x5C||a==0x7E) continue; /* yen sign / overline in some converters */ }
+		if(printable&&!ok1[a]) bad("converted:printable:"+enc,"printable ASCII byte rejected under "+enc,std::string(1,c)); if(!printable&&ok1[a]) bad("converted:control:"+enc,"C0 control or DEL accepted as valid text under "+enc+" (an encoding validated through conversion to UTF-8)",std::string(1,c));
+		{ std::string out="zz"; bool v=cppcms::encoding::validate_or_filter(enc,&c,&c+1,out,0); if(v!=ok1[a]) bad("converted:filter-verdict:"+enc,"validate_or_filter verdict differs from valid() under "+enc,std::string(1,c)); }
+		// next to valid text, in both positions
+		for(int pos=0;pos<2;pos++){ std::string t= pos? std::string("ab")+c : std::string(1,c)+"ab"; size_t c2=0; bool v=cppcms::encoding::valid(enc,t.data(),t.data()+t.size(),c2); vf::eval(); if(v!=printable) bad(std::string("converted:")+(printable?"printable":"control")+"-in-text:"+enc,std::string(printable?"valid text rejected":"text containing a C0 control or DEL accepted")+" under "+enc,t); if(!printable){ std::string out; bool fv=cppcms::encoding::validate_or_filter(enc,t.data(),t.data()+t.size(),out,0); if(fv||out.find(c)!=std::string::npos) bad("converted:filter-keeps-control:"+enc,"validate_or_filter leaves a control character in the text under "+enc,t); } }
+		vf::outcome(enc+":"+std::to_string(a)+":"+(ok1[a]?"1":"0")); }
+	vf::guard("converter_backed_encodings"); } }
+
 // ---- whole-string functions on catalogue concatenations ------------------------------------------
 static std::vector<std::string> catalogue(bool small){ std::vector<std::string> c; const char *p[]={
 	"A","\x7f","\t","\n","\x01","\x00" /*NUL handled below*/, " ",
@@ -135,6 +149,6 @@ int main(int argc,char **argv){ vf::init(argc,argv,"C14","exploration"); int n=1
 	vf::assume("C0/C1 controls are read as Unicode Cc incl. U+007F (the statement names DEL for the single-byte family; the code rejects it in HTML-safe UTF-8 as well)");
 	vf::assume("filtering: resynchronisation is byte-wise after an ill-formed lead; between 1 and n replacement characters per run of n invalid bytes are accepted");
 	vf::run_sub("rel","sweep");
-	vf::parallel(n,n,[&](int sh){ short_shard(sh,n); single_byte(sh,n); strings_shard(sh,n); form_shard(sh,n); },1500);
-	vf::require_guard("windows_wellformed"); vf::require_guard("html_mode_rejections"); vf::require_guard("code_pages"); vf::require_guard("filtered"); vf::require_guard("short_strings"); vf::require_guard("form_widget_cases"); vf::require_guard("form_rejected_by_length");
+	vf::parallel(n,n,[&](int sh){ short_shard(sh,n); single_byte(sh,n); converter_backed(sh,n); strings_shard(sh,n); form_shard(sh,n); },1500);
+	vf::require_guard("windows_wellformed"); vf::require_guard("html_mode_rejections"); vf::require_guard("code_pages"); vf::require_guard("converter_backed_encodings"); vf::require_guard("filtered"); vf::require_guard("short_strings"); vf::require_guard("form_widget_cases"); vf::require_guard("form_rejected_by_length");
 	return vf::finish(); }
